@@ -224,6 +224,8 @@ func registerGoStubs(p *Program) {
 		"net/url.QueryEscape":                     "QueryEscape",
 		"net/url.PathEscape":                      "PathEscape",
 		"io.ReadAll":                              "IOReadAll",
+		"net/url.Parse":                           "URLParse",
+		"(*net/url.URL).IsAbs":                    "URLIsAbs",
 		"golang.org/x/crypto/bcrypt.GenerateFromPassword":   "BcryptGenerateFromPassword",
 		"golang.org/x/crypto/bcrypt.CompareHashAndPassword": "BcryptCompareHashAndPassword",
 		"io/ioutil.ReadAll":                       "IOReadAll",
